@@ -421,7 +421,10 @@ def load_supplemental_sources(config, config_dir):
                     # Type conversion
                     if field_name == 'date':
                         try:
-                            row[field_name] = datetime.strptime(value, format_spec.date_format).date()
+                            # An optional day name after the date ("01/02/2017  Mon") is dropped,
+                            # as for a transaction source (unless the format itself has blanks)
+                            date_text = value.split()[0] if (value and ' ' not in format_spec.date_format) else value
+                            row[field_name] = datetime.strptime(date_text, format_spec.date_format).date()
                         except ValueError:
                             row[field_name] = value
                     elif field_name in ('amount', 'item_amount', 'price', 'total', 'proceeds', 'costbasis', 'gainloss', 'grosspay', 'federal', 'state', 'socialsec', 'medicare', '401k', 'hsa', 'netpay', 'shares'):
